@@ -268,7 +268,9 @@ class Report:
               "coverage": self.cov, "assumptions": self.assumptions, "wall_s": round(wall, 2),
               "violations": getattr(self, "nviol", 0)}
         os.makedirs(EVID, exist_ok=True)
-        with open(os.path.join(EVID, self.prop + ".json"), "w") as fh:
+        # a --replay run re-executes one stored case: its (tiny) coverage must not replace the evidence of the last full run
+        name = self.prop + (".replay.json" if "--replay" in sys.argv else ".json")
+        with open(os.path.join(EVID, name), "w") as fh:
             json.dump(ev, fh, indent=1, default=str)
         for fid, what in self.known:
             print("KNOWN-FINDING: property=%s %s %s" % (self.prop, fid, what))
